@@ -30,9 +30,20 @@ func init() {
 			}
 			add("none", "none", 0, 1, single)
 			for _, c := range causes {
-				add(c, "none", 0, 1, single)
+				// quick tier: bound 2 only where the cleanup order matters most (client close,
+				// cut followed by reconnect); the other single causes at bound 1
+				b0, b1 := single, single
+				if tier != "thorough" {
+					if c != "close" {
+						b0 = 1
+					}
+					if c != "fin" {
+						b1 = 1
+					}
+				}
+				add(c, "none", 0, 1, b0)
 				if c == "fin" || c == "rst" {
-					add(c, "none", 1, 1, single)
+					add(c, "none", 1, 1, b1)
 				}
 			}
 			for _, c1 := range causes {
